@@ -368,6 +368,10 @@ def extra(rng, tier):
             raise RuntimeError(f"controller base run failed for {name}: {st} {summ}")
         choices = [tuple(c) for c in summ["choices"]]
         meta[name] = {"k": k, "choice_points": len(choices), "steps": summ["steps"]}
+        if summ["status"] not in ("ok", "idle"):
+            # the default (fair, non-preemptive) schedule already fails: report it, do not enumerate thousands of such runs
+            failures.append(fw.Failure("oracle", {"op": "threads", "cfg": cfg, "pre": []}, f"run ended with status {summ['status']} under the default schedule"))
+            continue
         items.append({"name": name, "cfg": cfg, "pre": [], "start": 0, "depth": k, "k": k})
         for i, t in thr_ctl.first_level(choices):
             items.append({"name": name, "cfg": cfg, "pre": [[i, t]], "start": i + 1, "depth": 1, "k": k})
